@@ -6,7 +6,7 @@ import sys
 
 from .common import Check, R, F, Program, all_results, sum_obligations, root_kind, properties_of, violation_key, strip_lines
 
-QUICK_BUDGET = {"states": 900000, "seconds": 1200}
+QUICK_BUDGET = {"states": 900000, "seconds": 420}
 
 
 def machine_jobs(tier, roots=None, kinds=("entry", "scanner")):
@@ -161,8 +161,18 @@ def C09(tier):
                          explanation="parse_chunk_size in product with the chunk-size reference, debug and release MIR; size accumulator proved not to wrap and equal to the digit value")
 
 
+def c10_filter(v, job, res):
+    if v["rule"].startswith("spec:errkind:"):
+        m = re.search(r"first offending byte as (\w+)", v["detail"])
+        if m and (v["rule"].split(":", 2)[2], m.group(1)) in wider_language(res):
+            # the implementation accepts input the reference rejects with this error: the later,
+            # differently named error is a consequence of the wider language (C06-C09/C14)
+            return False
+    return True
+
+
 def C10(tier):
-    return machine_check("C10", tier, roots=[r for r in R.ENTRY_ROOTS if root_kind(r) != "chunk"], kinds=("entry",),
+    return machine_check("C10", tier, roots=[r for r in R.ENTRY_ROOTS if root_kind(r) != "chunk"], kinds=("entry",), pid_filter=c10_filter,
                          explanation="error kind at every Err return equals the reference's classification of the first offending byte; TooManyHeaders only with a complete surplus line")
 
 
@@ -259,7 +269,8 @@ def C13(tier):
                 for v in r.get("violations", []):
                     if v["rule"].startswith("obligation:assert:") or v["rule"] in ("panic-reachable",):
                         continue  # debug-only checks are C01's business; here: observable results
-                    ks[(v["rule"], j["root"], v["detail"])] = dict(v, job=j)
+                    from .common import norm_detail
+                    ks[(v["rule"], j["root"], norm_detail(v["detail"]))] = dict(v, job=j)
                 for u in r.get("unanalysable", []):
                     ks[("unanalysable:" + u["what"], j["root"], "")] = dict(u, job=j)
             return ks
@@ -303,7 +314,8 @@ def C15(tier):
         preset_on = tuple(sorted(k[4:] for k, val in (j.get("preset") or {}).items() if val))
         for v in r.get("violations", []):
             if v["rule"].startswith("spec:") or v["rule"].startswith("hygiene:") or v["rule"].startswith("zero-copy:"):
-                k = (root_kind(j["root"]), v["rule"], v["detail"])
+                from .common import norm_detail
+                k = (root_kind(j["root"]), v["rule"], norm_detail(v["detail"]))
                 if v.get("default_alive") == [False]:
                     continue  # only on inputs the default configuration rejects: outside C15's claim
                 for on in v.get("options_on") or [()]:
@@ -335,10 +347,11 @@ def C16(tier):
         s = by_root.setdefault(j["root"], {})
         preset_on = tuple(sorted(k[4:] for k, val in (j.get("preset") or {}).items() if val))
         for v in r.get("violations", []):
-            if v["rule"].startswith("spec:") or v["rule"].startswith("hygiene:") or v["rule"].startswith("zero-copy:") or v["rule"].startswith("headers:"):
+            if v["rule"].startswith("spec:") or v["rule"].startswith("hygiene:") or v["rule"].startswith("zero-copy:") or v["rule"].startswith("framing:"):
+                from .common import norm_detail
                 for on in v.get("options_on") or [()]:
                     allon = tuple(sorted(set(on) | set(preset_on)))
-                    s[(v["rule"], v["detail"], allon)] = v
+                    s[(v["rule"], norm_detail(v["detail"]), allon)] = v
     groups = [
         ("Request::parse", "Request::parse_with_uninit_headers", None),
         ("ParserConfig::parse_request", "ParserConfig::parse_request_with_uninit_headers", None),
